@@ -315,7 +315,8 @@ def correspondence(ctx):
     notes = []
     import importlib
     for modname, fn, label in (("checks.c18", "sasl_framing_cases", "SASL exchange framing per negotiated versions (Dialer and Transport)"),
-                               ("checks.c05", "frame_sweep_cases", "frame back-patching across 64 KiB page boundaries")):
+                               ("checks.c05", "frame_sweep_cases", "frame back-patching across 64 KiB page boundaries"),
+                               ("checks.c11", "split_cases", "Conn decoding of responses delivered in two segments, boundary at every byte")):
         try:
             hc = getattr(importlib.import_module(modname), fn)(ctx)
             failures += hc.get("failures", [])
